@@ -83,6 +83,21 @@ def call(f, *a, **kw):
         return "exc", e, buf.getvalue()
 
 
+def reborn_at(dead_id, make, tries=24):
+    """make() again and again (holding on to the misses) until the new object lives at the address `dead_id` of an object that has died - what
+    the allocator does by itself sooner or later in a loop over recordings.  Returns the last object made (at that address if it could be had)."""
+    y = make()          # first thing: nothing else may be allocated between the death and this
+    if id(y) == dead_id:
+        return y
+    hold = (y, None)    # a linked chain of tuples, not a list: a list would itself take a freed list's place
+    for _ in range(tries):
+        y = make()
+        if id(y) == dead_id:
+            break
+        hold = (y, hold)
+    return y
+
+
 def exc_name(e):
     return type(e).__name__
 
